@@ -55,7 +55,7 @@ def hx(n):
 
 def run_cases(binary, cases, timeout=600):
     inp = "\n".join(" ".join(c) for c in cases) + "\n"
-    p = subprocess.run([binary], input=inp, capture_output=True, text=True, timeout=timeout)
+    p = subprocess.run([binary], input=inp, capture_output=True, text=True, timeout=timeout, errors="backslashreplace")
     out = p.stdout.split("\n")[:len(cases)]
     if p.returncode != 0 and len([x for x in out if x != ""]) < len(cases):
         # the driver died (abort / stack overflow / fault): the first case without an answer is the culprit
@@ -516,6 +516,25 @@ def expected(case):
             return out
         if op == "iabs":
             return hx(abs(I(0)))
+        if op in ("signmul", "signneg"):
+            sv = {"-": -1, "0": 0, "+": 1}
+            r = sv[a[0]] * sv[a[1]] if op == "signmul" else -sv[a[0]]
+            return {-1: "Minus", 0: "NoSign", 1: "Plus"}[r]
+        if op == "isignprops":
+            x = I(0)
+            sn = "Minus" if x < 0 else "Plus" if x > 0 else "NoSign"
+            return "%s %s %s %s %s %s %s" % (sn, "true" if x > 0 else "false", "true" if x < 0 else "false", hx(abs(x)), sn, hx(abs(x)), hx(x))
+        if op == "ineg_ref":
+            return "%s %s" % (hx(-I(0)), hx(I(0)))
+        if op in ("iident", "uident"):
+            x = I(0)
+            return "0 0 0 1 %s %s 0 1" % ("true" if x == 0 else "false", "true" if x == 1 else "false")
+        if op == "iconvs":
+            x = I(0)
+            u = opt(hx(x) if x >= 0 else None)
+            return "%s %s %s" % (u, opt(hx(x)), u)
+        if op == "uconvs":
+            return "%s %s %s" % (opt(hx(I(0))), hx(I(0)), opt(hx(I(0))))
         if op == "iabs_sub":
             return hx(max(I(0) - I(1), 0))
         if op == "isignum":
@@ -760,9 +779,16 @@ def lens(tier):
 def bank(pid, tier, seed):
     if pid == "C14":
         # "fails only in documented cases" spans the other properties' operations
-        out = bank("C14core", tier, seed)
-        for other in ("C01", "C06", "C07", "C05", "C11", "C12"):
-            out += bank(other, "quick", seed)[:40000]
+        core = bank("C14core", tier, seed)
+        out = core[-3000:]                                # the tail holds the cases specific to C14 (documented panics): first
+        subs = [core[:-3000]] + [bank(other, "quick", seed)[:40000] for other in ("C01", "C06", "C07", "C05", "C11", "C12")]
+        # round-robin in chunks, so that a run cut short by its time budget has sampled every operation family
+        CH = 2000
+        k = 0
+        while any(k < len(sb) for sb in subs):
+            for sb in subs:
+                out += sb[k:k + CH]
+            k += CH
         return out
     if pid == "C14core":
         pid = "C14"
@@ -921,6 +947,12 @@ def bank(pid, tier, seed):
                 cases.append(("umodpow", hx(a), hx(b % 1000), hx(rng.choice([0, 1, 2, b]))))
                 cases.append(("unth_root", hx(a), hx(rng.choice([0, 1, 2, 3]))))
                 cases.append(("ushl_i32", hx(a), hx(rng.choice([-1, 0, 5]))))
+    if pid == "C15":
+        # the unchecked byte-to-String conversion: every radix outside 2..=36 must be refused before a digit is mapped to a byte
+        for a in [0, 1, 35, 36, 255, B64 - 1, B64, big(rng, 3), big(rng, 7, "ones")]:
+            for r in (0, 1, 2, 10, 16, 35, 36, 37, 64, 100, 200, 255, 256, 257):
+                cases.append(("uto_str", hx(a), hx(r)))
+                cases.append(("ito_str", hx(-a), hx(r)))
     elif pid == "C04":
         for a, b in signed(pairs(6)):
             for op in ("ior", "iand", "ixor", "iadd", "isub", "iadd_assign", "isub_assign"):
@@ -1473,6 +1505,16 @@ def bank(pid, tier, seed):
         for s in ("-", "0", "+"):
             for a in (0, 1, B64, big(rng, 3)):
                 cases.append(("ifrom_biguint", s, hx(a)))
+            cases.append(("signneg", s))
+            for s2 in ("-", "0", "+"):
+                cases.append(("signmul", s, s2))
+        # sign / magnitude / parts reports, both negations, identities and set_zero / set_one over values of every size, conversions between the types
+        for a in [0, 1, 2, B64 - 1, B64, B64 + 1, (1 << 128) - 1, 1 << 128, big(rng, 3), big(rng, 5, "ones"), big(rng, 9)]:
+            for v in (a, -a):
+                for op in ("isignprops", "ineg_ref", "iident", "iconvs"):
+                    cases.append((op, hx(v)))
+            cases.append(("uident", hx(a)))
+            cases.append(("uconvs", hx(a)))
     # dedupe
     seen = set()
     out = []
